@@ -5,10 +5,11 @@
 import MellonDriver.Core
 import MellonDriver.Kernel
 import MellonDriver.Cond
+import MellonDriver.Decomp
 open Mellon Drv
 
 /-- All handlers, tried in order. -/
-def handlers : List Handler := [handleKernel, handleCond]
+def handlers : List Handler := [handleKernel, handleCond, handleDecomp]
 
 def handle : P String := do
   let op ← tok
